@@ -9,12 +9,15 @@ UNARY = ["buf", "not"]
 ALL_GATES = NARY + UNARY
 
 # ------------------------------------------------------------------ names
-# benign: no underscore, no dot, never equal to a name a transform creates.
+# benign: no dot, never equal to a name a transform creates from other benign names.
 BENIGN = (
     [chr(c) for c in range(ord("a"), ord("z") + 1) if chr(c) not in "x"]
     + [f"n{i}" for i in range(1, 13)]
     + [f"G{i}" for i in range(1, 9)]
     + ["N10", "N22", "i0", "i1", "g0", "g7", "in3", "out2", "Sum", "Cy", "w9", "K"]
+    # underscore / numeric-suffix names (the style of uid() and of synthesis tools); none of them
+    # equals a name that a transform generates from the other names of this pool
+    + ["n_1", "n_12", "net_3", "x_0", "g_0", "a_b", "sig_a", "w_1_2", "G_7_", "q_reg"]
 )
 # concatenation-ambiguous names (C01: aux variables are keyed by joined names)
 COMPOUND = ["a", "b", "c", "a_b", "b_c", "a_b_c", "c_a", "b_a", "c_b", "a_c"]
